@@ -496,9 +496,9 @@ HOSTS = ["a.com", "www.a.co.uk", "A.COM", "a.c", "a", "a.zzzz", "a.mesfesses", "
          "999.1.1.1", "0.0.0.0", "127.0.0.1", "192.168.1.1", "256.1.1.1", "1.2.3", "xn--bcher-kva.ch", "b\u00fccher.ch", "\u4f8b\u5b50.\u6d4b\u8bd5", "a.xn--fiqs8s", "a.\u4e2d\u56fd", "a.xn--zzzzzz", "a.com.",
          "a..com", "-a.com", "a-.com", "a_b.com", ".a.com", "a b.com", "a.co m", "a.com\u2026", "[::1]", "a.c0m", "a.123", "com.zzzz", "a.com.zzzz", "fr.a.zzzz", "zzzz.fr"]
 PORTS = ["", ":80", ":8", ":123456", ":65535", ":"]
-TAILS = ["", "/", "/p", "/p q", "/p\tq", "/p\nq", "/\u00e9", "?q=1", "?q=a b", "#f", "#f g", "/p?q#f", "/@b.zzzz", "/@b.com", "\\p", " /p", "/p\u00a0q", "/p\u2028q", "/p#a#b"]
+TAILS = ["/" + "x" * 2100, "/a?" + "k=v&" * 700 + "z#" + "f" * 100, "/" + "p q/" * 600, "", "/", "/p", "/p q", "/p\tq", "/p\nq", "/\u00e9", "?q=1", "?q=a b", "#f", "#f g", "/p?q#f", "/@b.zzzz", "/@b.com", "\\p", " /p", "/p\u00a0q", "/p\u2028q", "/p#a#b"]
 SDIMS = [PROTOS, USERS, HOSTS, PORTS, TAILS]
-SBASES = [(0, 0, 0, 0, 0), (4, 2, 5, 1, 3)]  # http://a.com ; wss://u:p@a.zzzz:80/p q
+SBASES = [(0, 0, 0, 0, 3), (4, 2, 5, 1, 6)]  # http://a.com ; wss://u:p@a.zzzz:80/p q
 
 STOKENS = ["http://", "//", "a", ".", "com", "c", "zzzz", ":", "80", "/", " ", "@", "localhost", "1.2.3.4", "?", "#", "\u00e9"]
 
